@@ -238,7 +238,7 @@ MANIFEST_TEXT = {
         technique='contract-based deductive verification (Verus postconditions on extracted real functions; complete loop-free Kani harnesses)',
         design_ref='DESIGN.md §4 C18'),
     'C09': dict(
-        level_text='Proof on the real crate, two engines. Kani/CBMC, loop-free harnesses over kani::any (complete, no unwinding): floor, ceiling, round, xpath_round for every f64; boolean/not/number coercions; unary minus; = != < <= > >= on every Boolean/Number operand pair; substring_range for every f64 start/length, every string length <= 2^53 and every position (two-argument form quick, three-argument form thorough with kissat, 17 min); + - * in the thorough tier. Verus (all strings): string-length counts characters; substring returns the characters of the range substring_range computes. Lexical number<->string forms, mod, Text/node-set operands and the remaining string functions are NOT decided.',
+        level_text='Proof on the real crate, two engines. Kani/CBMC, loop-free harnesses over kani::any (complete, no unwinding): floor, ceiling, round, xpath_round for every f64; boolean/not/number coercions; unary minus; = != < <= > >= on every Boolean/Number operand pair; substring_range for every f64 start/length, every string length <= 2^53 and every position (two-argument form quick, three-argument form thorough with kissat, 17 min); + - * in the thorough tier. Verus (all strings): string-length counts characters; substring returns the characters of the range substring_range computes. Verus (all strings): number() of a string follows the XPath lexical form (optional white space, optional minus, Digits with at most one dot; anything else NaN) -- the scanner xpath_number is verified against the grammar written as a predicate, overflow included; string() of a number spells NaN, the infinities, booleans and strings as prescribed (negative zero is a recorded open finding: the pinned suite demands "-0"). mod, the decimal digits Rust prints for a finite number, and that str::parse rounds a decimal literal correctly are NOT decided.',
         level_note='Trusted: Kani+CBMC+SAT, Verus+Z3, the inert-node harness trick (A7), declarative references written from the XPath text, std shims on the Verus side. The two engines meet at the contract of substring_range.',
         technique='contract-based verification: contracts asserted in loop-free Kani harnesses over full-domain symbolic scalars on the real crate (no stubs), and Verus postconditions on extracted real functions with the Kani-proved callee contract assumed',
         design_ref='DESIGN.md §4 C09, §8, §9'),
